@@ -1,131 +1,512 @@
 /-
-  Proofs/C15.lean — helper lemmas for Props/C15.lean.
+  Proofs/C15.lean — helper lemmas for Props/C15.lean: lengths of the encodings, and every creation route
+  (Dtype.build, token strings, pack, keyword, name-with-length, property assignment, Array element) reduced to the
+  case analysis of Proofs/C15Raw.lean.  (Integers, byte groups and digit strings are in Proofs/C15Core.lean.)
 -/
-import BitstringModel.Model.C15
-import BitstringModel.Proofs.Basic
-import Mathlib.Tactic.Ring
-import Mathlib.Tactic.Linarith
-
+import BitstringModel.Proofs.C15Raw
+set_option linter.unusedSimpArgs false
+set_option linter.unusedTactic false
+set_option linter.unreachableTactic false
 namespace BM.C15
 open BM
 
-theorem int2bitsWith_exact_aux (ba : Int → Int → Bool → Except BaErr Bits)
-    (hlen : ∀ i n s, n ≤ 0 → ba i n s = .error .value)
-    (hovf : ∀ i n s, 0 < n → inRange s n.toNat i = false → ba i n s = .error .overflow)
-    (hok : ∀ i n s, 0 < n → inRange s n.toNat i = true → ∃ b, ba i n s = .ok b)
-    (i n : Int) (s : Bool) :
-    (∃ b, int2bitsWith ba i n s = .ok b) ↔ (1 ≤ n ∧ inRange s n.toNat i = true) := by
-  sorry
+/-! ### lengths of the encodings -/
 
-theorem int2bitsWith_never_internal_aux (ba : Int → Int → Bool → Except BaErr Bits)
-    (hlen : ∀ i n s, n ≤ 0 → ba i n s = .error .value)
-    (hovf : ∀ i n s, 0 < n → inRange s n.toNat i = false → ba i n s = .error .overflow)
-    (hok : ∀ i n s, 0 < n → inRange s n.toNat i = true → ∃ b, ba i n s = .ok b)
-    (i n : Int) (s : Bool) :
-    (∃ b, int2bitsWith ba i n s = .ok b) ∨ int2bitsWith ba i n s = .error .value := by
-  sorry
+theorem fromBytes_length (ds : List Nat) : (fromBytes ds).length = 8 * ds.length := by
+  unfold fromBytes; exact flatMap_natToBits_length 8 ds
 
-theorem int2bits_total_aux (i n : Int) (s : Bool) :
-    int2bits i n s =
-      if 1 ≤ n ∧ inRange s n.toNat i = true then .ok (intToBits n.toNat i) else .error .value := by
-  sorry
+theorem intToBits_length (n : Nat) (i : Int) : (intToBits n i).length = n := by simp [intToBits]
 
-theorem int2bits_ok_iff_aux (i n : Int) (s : Bool) (b : Bits) :
-    int2bits i n s = .ok b ↔ (1 ≤ n ∧ inRange s n.toNat i = true ∧ b = intToBits n.toNat i) := by
-  sorry
+theorem leBits_intToBits_length (n : Int) (i : Int) (h1 : 1 ≤ n) (h8 : n % 8 = 0) :
+    ((leBits (intToBits n.toNat i)).length : Int) = n := by
+  rw [leBits_length _ (by rw [intToBits_length]; omega), intToBits_length]; omega
 
-theorem int2bits_unsigned_value_aux (i n : Int) (b : Bits) (h : int2bits i n false = .ok b) :
-    (bitsToNat b : Int) = i := by
-  sorry
+theorem leBits_natToBits_length (n c : Nat) (h8 : n % 8 = 0) : (leBits (natToBits n c)).length = n := by
+  rw [leBits_length _ (by simp [h8])]; simp
 
-theorem bytesRev_whole_bytes_aux (b : Bits) (h : b.length % 8 = 0) :
-    bytesRev b = leBits b ∧ (bytesRev b).length = b.length := by
-  sorry
-
-theorem digits2bits_ok_iff_aux (k : DigitKind) (s : List Char) (b : Bits) :
-    digits2bits k s = .ok b ↔
-      ((cleaned k s).all fun c => (k.val? c).isSome) = true ∧
-      b = ((cleaned k s).filterMap k.val?).flatMap (natToBits k.width) := by
-  sorry
-
-theorem digits2bits_length_aux (k : DigitKind) (s : List Char) (b : Bits) (h : digits2bits k s = .ok b) :
-    b.length = k.width * (cleaned k s).length := by
-  sorry
-
-theorem digits2bits_total_aux (k : DigitKind) (s : List Char) :
-    digits2bits k s =
-      if ((cleaned k s).all fun c => (k.val? c).isSome) = true
-      then .ok (((cleaned k s).filterMap k.val?).flatMap (natToBits k.width)) else .error .value := by
-  sorry
-
-theorem allowed_meaning_aux (n : Int) :
-    ((defOf .uintbe).allowed.contains n = true ↔ n % 8 = 0) ∧
-    ((defOf .intle).allowed.contains n = true ↔ n % 8 = 0) ∧
-    ((defOf .hex).allowed.contains n = true ↔ n % 4 = 0) ∧
-    ((defOf .oct).allowed.contains n = true ↔ n % 3 = 0) ∧
-    ((defOf .float).allowed.contains n = true ↔ (n = 16 ∨ n = 32 ∨ n = 64)) ∧
-    ((defOf .bool).allowed.contains n = true ↔ n = 1) ∧
-    ((defOf .bfloat).allowed.contains n = true ↔ n = 16) := by
-  sorry
+theorem digits_enc_length (k : DigitKind) (s : List Char)
+    (h : ((cleaned k s).all fun c => (k.val? c).isSome) = true) :
+    (((cleaned k s).filterMap k.val?).flatMap (natToBits k.width)).length = k.width * (cleaned k s).length := by
+  rw [flatMap_natToBits_length, filterMap_length_of_all _ _ h]
 
 theorem encode_length_aux (d : DT) (n : Int) (v : Val) (h : valid d (some n) v = true) :
     ((encode d (some n) v).length : Int) = n * (defOf d).mult := by
-  sorry
+  cases d <;> cases v <;> simp [valid] at h
+  case uint.int => simp [encode, defOf, intToBits_length]; omega
+  case int.int => simp [encode, defOf, intToBits_length]; omega
+  case uintbe.int => simp [encode, defOf, intToBits_length]; omega
+  case intbe.int => simp [encode, defOf, intToBits_length]; omega
+  case uintle.int i =>
+    simp [isEndian] at h
+    simp only [encode, defOf, Option.getD_some, Nat.cast_one, mul_one]
+    exact leBits_intToBits_length n i h.1.1 h.1.2
+  case intle.int i =>
+    simp [isEndian] at h
+    simp only [encode, defOf, Option.getD_some, Nat.cast_one, mul_one]
+    exact leBits_intToBits_length n i h.1.1 h.1.2
+  case hex.str s =>
+    have := digits_enc_length .hex s (by simpa [DigitKind.val?] using h.1)
+    simp only [encode, defOf, Nat.cast_one, mul_one]
+    simp only [DigitKind.val?, DigitKind.width] at this
+    rw [this]; simp [lenIs] at h; omega
+  case oct.str s =>
+    have := digits_enc_length .oct s (by simpa [DigitKind.val?] using h.1)
+    simp only [encode, defOf, Nat.cast_one, mul_one]
+    simp only [DigitKind.val?, DigitKind.width] at this
+    rw [this]; simp [lenIs] at h; omega
+  case bin.str s =>
+    have := digits_enc_length .bin s (by simpa [DigitKind.val?] using h.1)
+    simp only [encode, defOf, Nat.cast_one, mul_one]
+    simp only [DigitKind.val?, DigitKind.width] at this
+    rw [this]; simp [lenIs] at h; omega
+  case float.float a b c =>
+    simp only [encode, defOf, Option.getD_some, Nat.cast_one, mul_one, natToBits_length]
+    omega
+  case floatle.float a b c =>
+    simp only [encode, defOf, Option.getD_some, Nat.cast_one, mul_one]
+    rw [leBits_natToBits_length _ _ (by omega)]; omega
+  case bfloat.float a b c =>
+    simp [lenIs] at h
+    simp [encode, defOf, h]
+  case bfloatle.float a b c =>
+    simp [lenIs] at h
+    simp only [encode, defOf, Nat.cast_one, mul_one]
+    rw [leBits_natToBits_length _ _ (by decide)]; omega
+  case bits.bits b => simp [lenIs] at h; simp [encode, defOf, h]
+  case bool.int i => simp [lenIs] at h; simp [encode, defOf, h]
+  case bool.str s => simp [lenIs] at h; simp [encode, defOf, h]
+  case bytes.bytes ds => simp [lenIs] at h; simp [encode, defOf, fromBytes_length, h]; omega
+  case fx8.code c => simp [lenIs] at h; simp [encode, defOf, h]
+  case fx6.code c => simp [lenIs] at h; simp [encode, defOf, h]
+  case fx4.code c => simp [lenIs] at h; simp [encode, defOf, h]
+
+theorem encode_length_none (d : DT) (v : Val) (x : Int) (h : valid d none v = true)
+    (hx : (defOf d).allowed.onlyOne = some x) : ((encode d none v).length : Int) = x * (defOf d).mult := by
+  cases d <;> simp [defOf, Allowed.onlyOne] at hx <;> subst hx <;> cases v <;> simp [valid] at h <;>
+    simp [encode, defOf]
+  case bfloatle.float a b c => rw [leBits_natToBits_length _ _ (by decide)]; rfl
+
+theorem valid_neg (d : DT) (n : Int) (v : Val) (hn : n < 0) : valid d (some n) v = false := by
+  cases hv : valid d (some n) v with
+  | false => rfl
+  | true =>
+    have := encode_length_aux d n v hv
+    have h0 : (0 : Int) ≤ ((encode d (some n) v).length : Int) := Int.natCast_nonneg _
+    have hm : (1 : Int) ≤ ((defOf d).mult : Int) := by cases d <;> simp [defOf]
+    nlinarith
+
+/-- In the `kw_len_unchecked` region the value's own bits do not have the stated length. -/
+theorem kwLU0_len_ne (d : DT) (n : Int) (v : Val) (h : kwLU0 d (some n) v = true) :
+    ((encode d none v).length : Int) ≠ n * (defOf d).mult := by
+  unfold kwLU0 at h
+  simp only [Bool.and_eq_true, Bool.not_eq_true'] at h
+  obtain ⟨⟨⟨⟨hk, _⟩, _⟩, hv0⟩, hv1⟩ := h
+  cases d <;> simp [lenUncheckedKind] at hk <;> cases v <;> simp [valid] at hv0
+  case hex.str s =>
+    simp only [lenIs, Bool.and_true] at hv0
+    have hall : ((cleaned .hex s).all fun c => ((DigitKind.hex).val? c).isSome) = true := by
+      simpa [DigitKind.val?] using hv0
+    have := digits_enc_length .hex s hall
+    simp only [DigitKind.val?, DigitKind.width] at this
+    simp only [encode, defOf, Nat.cast_one, mul_one, this]
+    simp only [DigitKind.val?] at hall
+    simp [valid, hall, lenIs] at hv1
+    push_cast; omega
+  case oct.str s =>
+    simp only [lenIs, Bool.and_true] at hv0
+    have hall : ((cleaned .oct s).all fun c => ((DigitKind.oct).val? c).isSome) = true := by
+      simpa [DigitKind.val?] using hv0
+    have := digits_enc_length .oct s hall
+    simp only [DigitKind.val?, DigitKind.width] at this
+    simp only [encode, defOf, Nat.cast_one, mul_one, this]
+    simp only [DigitKind.val?] at hall
+    simp [valid, hall, lenIs] at hv1
+    push_cast; omega
+  case bin.str s =>
+    simp only [lenIs, Bool.and_true] at hv0
+    have hall : ((cleaned .bin s).all fun c => ((DigitKind.bin).val? c).isSome) = true := by
+      simpa [DigitKind.val?] using hv0
+    have := digits_enc_length .bin s hall
+    simp only [DigitKind.val?, DigitKind.width] at this
+    simp only [encode, defOf, Nat.cast_one, mul_one, this]
+    simp only [DigitKind.val?] at hall
+    simp [valid, hall, lenIs] at hv1
+    push_cast; omega
+  case bits.bits b =>
+    simp [valid, lenIs] at hv1
+    simp only [encode, defOf, Nat.cast_one, mul_one]; omega
+  case bytes.bytes ds =>
+    simp [valid, lenIs] at hv1
+    simp only [encode, defOf, fromBytes_length]; push_cast; omega
+
+/-! ### the current length does not matter once a length is bound, and an empty store counts as none -/
+
+theorem lenOrCur_none_zero (len : Option Int) : lenOrCur len none = lenOrCur len (some 0) := by
+  cases len <;> simp [lenOrCur]
+
+theorem setFn_none_zero (d : DT) (v : Val) (len : Option Int) : setFn d v len none = setFn d v len (some 0) := by
+  cases d <;> simp [setFn, setInt, setFloat, lenOrCur_none_zero]
+
+theorem callSet_none_zero (d : DT) (dl : Option Int) (v : Val) : callSet d dl v none = callSet d dl v (some 0) := by
+  unfold callSet; exact setFn_none_zero d v _
+
+theorem getDtype_some_ok (d : DT) (n : Int) (dl : Option Int) (h : getDtype d (some n) = .ok dl) : dl = some n := by
+  unfold getDtype at h
+  simp only at h
+  split at h
+  · cases h
+  · split at h
+    · cases h
+    · split at h
+      · cases h
+      · injection h with h; exact h.symm
+
+theorem getDtype_none_ok (d : DT) : getDtype d none = .ok (defOf d).allowed.onlyOne := by
+  cases d <;> simp [getDtype, defOf, Allowed.onlyOne]
+
+theorem getDtype_none0 (d : DT) : getDtype d none = getDtype0 d none := rfl
+
+theorem getDtype_nonneg (d : DT) (n : Int) (hn : 0 ≤ n) : getDtype d (some n) = getDtype0 d (some n) := by
+  unfold getDtype getDtype0
+  simp only [show ¬ n < 0 by omega, if_false]
+
+theorem getDtype_neg (d : DT) (n : Int) (hn : n < 0) : getDtype d (some n) = .error .value := by
+  unfold getDtype
+  simp only [hn, if_true]
+  split
+  · rfl
+  · split <;> rfl
+
+/-! ### every route without its final length check, with the `length < 0` refusal of `get_dtype` -/
+
+def raw (d : DT) (len : Option Int) (v : Val) : Except Err Bits :=
+  match getDtype d len with
+  | .error e => .error e
+  | .ok dl => callSet d dl v (some 0)
+
+/-- Where a route without a final length check would succeed with the wrong length. -/
+def kwLU (d : DT) (len : Option Int) (v : Val) : Bool := kwLU0 d len v && decide (0 ≤ len.getD 0)
+
+def spec3 (d : DT) (len : Option Int) (v : Val) : Except Err Bits :=
+  if valid d len v = true then .ok (encode d len v)
+  else if kwLU d len v = true then .ok (encode d none v) else .error .value
+
+theorem raw_raw0 (d : DT) (len : Option Int) (v : Val) (h : getDtype d len = getDtype0 d len) :
+    raw d len v = raw0 d len v := by
+  unfold raw raw0; rw [h]; cases getDtype0 d len <;> rfl
+
+theorem raw_eq (d : DT) (len : Option Int) (v : Val) (hw : wellTyped d v = true) : raw d len v = spec3 d len v := by
+  have h0 := raw0_eq d len v hw
+  unfold spec30 at h0
+  unfold spec3 kwLU
+  cases len with
+  | none => rw [raw_raw0 d none v (getDtype_none0 d), h0]; simp
+  | some n =>
+    by_cases hn : n < 0
+    · unfold raw
+      rw [getDtype_neg d n hn, valid_neg d n v hn]
+      simp [show ¬ (0 ≤ n) by omega]
+    · rw [raw_raw0 d (some n) v (getDtype_nonneg d n (by omega)), h0]
+      simp [show 0 ≤ n by omega]
+
+theorem kwLU_len_ne (d : DT) (n : Int) (v : Val) (h : kwLU d (some n) v = true) :
+    ((encode d none v).length : Int) ≠ n * (defOf d).mult := by
+  unfold kwLU at h
+  simp only [Bool.and_eq_true] at h
+  exact kwLU0_len_ne d n v h.1
+
+/-! ### the routes -/
+
+theorem spec3_error (d : DT) (len : Option Int) (v : Val) (e : Err) (h : spec3 d len v = .error e) :
+    e = .value ∧ valid d len v = false ∧ kwLU d len v = false := by
+  unfold spec3 at h
+  by_cases hv : valid d len v = true
+  · rw [if_pos hv] at h; cases h
+  · rw [if_neg hv] at h
+    by_cases hk : kwLU d len v = true
+    · rw [if_pos hk] at h; cases h
+    · rw [if_neg hk] at h
+      injection h with h
+      exact ⟨h.symm, by simpa using hv, by simpa using hk⟩
+
+theorem kwLU_none (d : DT) (v : Val) : kwLU d none v = false := by
+  unfold kwLU kwLU0; simp
 
 theorem build_eq_aux (d : DT) (len : Option Int) (v : Val) (hw : wellTyped d v = true) :
     build d len v = if valid d len v = true then .ok (encode d len v) else .error .value := by
-  sorry
+  have hr := raw_eq d len v hw
+  unfold raw at hr
+  unfold build
+  cases hg : getDtype d len with
+  | error e =>
+    rw [hg] at hr
+    obtain ⟨he, hv, _⟩ := spec3_error d len v e hr.symm
+    simp only [hv, Bool.false_eq_true, if_false, he]
+  | ok dl =>
+    rw [hg] at hr
+    simp only at hr ⊢
+    rw [hr]
+    unfold spec3
+    by_cases hv : valid d len v = true
+    · simp only [hv, if_true]
+      cases len with
+      | none =>
+        rw [getDtype_none_ok] at hg
+        injection hg with hg
+        subst hg
+        cases hx : (defOf d).allowed.onlyOne with
+        | none => simp [bitLen]
+        | some x =>
+          have := encode_length_none d v x hv hx
+          simp [bitLen, this]
+      | some n =>
+        have := getDtype_some_ok d n dl hg
+        subst this
+        have := encode_length_aux d n v hv
+        simp [bitLen, this]
+    · simp only [hv, if_false]
+      by_cases hk : kwLU d len v = true
+      · simp only [hk, if_true]
+        cases len with
+        | none => rw [kwLU_none] at hk; cases hk
+        | some n =>
+          have := getDtype_some_ok d n dl hg
+          subst this
+          have := kwLU_len_ne d n v hk
+          simp [bitLen, this]
+      · simp [hv, hk]
 
 theorem fromToken_eq_aux (d : DT) (len : Option Int) (v : Val) (hw : wellTyped d v = true) :
     fromToken d len v = if valid d len v = true then .ok (encode d len v) else .error .value := by
-  sorry
+  have hb := build_eq_aux d len v hw
+  unfold fromToken
+  cases hg : getDtype d len with
+  | error e =>
+    have : build d len v = .error e := by unfold build; rw [hg]
+    rw [this] at hb
+    by_cases hv : valid d len v = true
+    · rw [if_pos hv] at hb; cases hb
+    · rw [if_neg hv] at hb ⊢; exact hb
+  | ok dl =>
+    simp only
+    rw [hb]
+    by_cases hv : valid d len v = true
+    · simp only [hv, if_true]
+      cases len with
+      | none => rfl
+      | some n =>
+        have := getDtype_some_ok d n dl hg
+        subst this
+        have := encode_length_aux d n v hv
+        simp [bitLen, this]
+    · simp [hv]
 
 theorem packRoute_eq_aux (d : DT) (len : Option Int) (v : Val) (hw : wellTyped d v = true) :
     packRoute d len v = if valid d len v = true then .ok (encode d len v) else .error .value := by
-  sorry
+  have hf := fromToken_eq_aux d len v hw
+  cases d <;> cases v <;> simp [wellTyped] at hw <;> try (exact hf)
+  case bits.bits b =>
+    unfold packRoute
+    cases len with
+    | none => simp [valid, encode, lenIs]
+    | some n =>
+      by_cases h : n = (b.length : Int)
+      · simp [valid, encode, lenIs, h]
+      · simp [valid, encode, lenIs, h]
+
+theorem build_some_cur (d : DT) (n : Int) (v : Val) :
+    propnSet d n v = if n < 0 then .error .value else build d (some n) v := by
+  unfold propnSet build
+  by_cases hn : n < 0
+  · simp [hn]
+  · simp only [hn, if_false]
+    cases hg : getDtype d (some n) with
+    | error e => rfl
+    | ok dl =>
+      have := getDtype_some_ok d n dl hg
+      subst this
+      simp only [callSet_none_zero]
+      cases callSet d (some n) v (some 0) with
+      | error e => rfl
+      | ok x => simp [bitLen]
 
 theorem propnSet_eq_aux (d : DT) (n : Int) (v : Val) (hw : wellTyped d v = true) :
     propnSet d n v = if valid d (some n) v = true then .ok (encode d (some n) v) else .error .value := by
-  sorry
+  rw [build_some_cur]
+  by_cases hn : n < 0
+  · simp [hn, valid_neg d n v hn]
+  · simp only [hn, if_false]; exact build_eq_aux d (some n) v hw
+
+theorem mult_one (d : DT) (hd : d ≠ .bytes) : (defOf d).mult = 1 := by
+  cases d <;> simp [defOf] at hd ⊢
 
 theorem createElement_eq_aux (d : DT) (n : Int) (v : Val) (hw : wellTyped d v = true) (hd : d ≠ .bytes) :
     createElement d n v = if valid d (some n) v = true then .ok (encode d (some n) v) else .error .value := by
-  sorry
+  unfold createElement
+  rw [build_eq_aux d (some n) v hw]
+  by_cases hv : valid d (some n) v = true
+  · have := encode_length_aux d n v hv
+    rw [mult_one d hd] at this
+    simp [hv, this]
+  · simp [hv]
+
+theorem kwRoute_core (d : DT) (len : Option Int) (v : Val) (hd : d ≠ .bytes) :
+    kwRoute d v len none = build d len v := by
+  unfold build
+  cases d <;> simp at hd <;> simp only [kwRoute, callSet_none_zero, checkLen] <;>
+    (cases getDtype _ len <;> rfl)
 
 theorem kwRoute_eq_aux (d : DT) (len : Option Int) (v : Val) (hw : wellTyped d v = true) (hd : d ≠ .bytes) :
-    kwRoute d v len none =
-      if valid d len v = true then .ok (encode d len v)
-      else if kwLenUnchecked d len v = true then .ok (encode d none v)
-      else .error .value := by
-  sorry
+    kwRoute d v len none = if valid d len v = true then .ok (encode d len v) else .error .value := by
+  rw [kwRoute_core d len v hd, build_eq_aux d len v hw]
 
 theorem kwRoute_offset_aux (d : DT) (len : Option Int) (off : Int) (v : Val) (hd : d ≠ .bytes) :
     kwRoute d v len (some off) = .error .value := by
-  sorry
+  cases d <;> simp at hd <;> simp [kwRoute]
 
-theorem kwnRoute_eq_aux (d : DT) (n : Int) (v : Val) (hw : wellTyped d v = true) (hn : 0 ≤ n) :
-    kwnRoute d n v =
-      if valid d (some n) v = true then .ok (encode d (some n) v)
-      else if kwLenUnchecked d (some n) v = true then .ok (encode d none v)
-      else .error .value := by
-  sorry
+theorem kwnRoute_eq_aux (d : DT) (n : Int) (v : Val) (hw : wellTyped d v = true) :
+    kwnRoute d n v = if valid d (some n) v = true then .ok (encode d (some n) v) else .error .value := by
+  by_cases hn : n < 0
+  · unfold kwnRoute; simp [hn, valid_neg d n v hn]
+  · have : kwnRoute d n v = build d (some n) v := by
+      unfold kwnRoute build
+      simp only [hn, if_false, callSet_none_zero, checkLen]
+    rw [this, build_eq_aux d (some n) v hw]
+
+/-! ### plain property assignment -/
+
+theorem spec3_noKw (d : DT) (len : Option Int) (v : Val) (hk : kwLU d len v = false) :
+    spec3 d len v = if valid d len v = true then .ok (encode d len v) else .error .value := by
+  unfold spec3; rw [hk]; simp
+
+theorem setInt_cur (sg le : Bool) (v : Val) (c : Nat) (hc : c ≠ 0) :
+    setInt sg le v none (some c) = setInt sg le v (some (c : Int)) (some 0) := by
+  unfold setInt lenOrCur; simp [hc]
+
+theorem setFloat_cur (le : Bool) (v : Val) (c : Nat) (hc : c ≠ 0) :
+    setFloat le v none (some c) = setFloat le v (some (c : Int)) (some 0) := by
+  unfold setFloat lenOrCur; simp [hc]
+
+theorem propSet_int (d : DT) (hd : isInt d = true) (cur : Bits) (v : Val) (hw : wellTyped d v = true)
+    (hreg : propEndianNotWhole d cur = false) :
+    propSet d cur v =
+      if valid d (effLen d cur) v = true then .ok (encode d (effLen d cur) v) else .error .value := by
+  unfold propSet
+  have hk : ∀ l, kwLU d l v = false := by
+    intro l; cases d <;> simp [isInt] at hd <;> simp [kwLU, kwLU0, lenUncheckedKind]
+  have heff : effLen d cur = if cur.length ≠ 0 then some (cur.length : Int) else none := by
+    cases d <;> simp [isInt] at hd <;> rfl
+  by_cases hc : cur.length = 0
+  · have h1 : setFn d v none (some cur.length) = .error .value := by
+      rw [hc]; cases d <;> simp [isInt] at hd <;> simp [setFn, setInt_none0]
+    have hv : valid d none v = false := by
+      cases d <;> simp [isInt] at hd <;> cases v <;> simp [valid]
+    rw [h1, heff]; simp [hc, hv]
+  · have h8 : isEndian d = true → (cur.length : Int) % 8 = 0 := by
+      intro he
+      unfold propEndianNotWhole at hreg
+      simp [he] at hreg
+      omega
+    have h1 : setFn d v none (some cur.length) = raw d (some (cur.length : Int)) v := by
+      unfold raw
+      have hnn : ¬ ((cur.length : Int) < 0) := by omega
+      cases d <;> simp [isInt] at hd <;>
+        simp [getDtype, defOf, Allowed.contains, callSet, bitLen, setFn, setInt_cur _ _ _ _ hc, hnn]
+      all_goals (have := h8 rfl; simp [this])
+    rw [h1, raw_eq _ _ _ hw, heff, spec3_noKw _ _ _ (hk _)]
+    simp [hc]
+
+theorem propSet_float (d : DT) (hd : d = .float ∨ d = .floatle) (cur : Bits) (v : Val) (hw : wellTyped d v = true) :
+    propSet d cur v =
+      if valid d (effLen d cur) v = true then .ok (encode d (effLen d cur) v) else .error .value := by
+  unfold propSet
+  have hk : ∀ l, kwLU d l v = false := by
+    intro l; rcases hd with rfl | rfl <;> simp [kwLU, kwLU0, lenUncheckedKind]
+  have heff : effLen d cur = if cur.length ≠ 0 then some (cur.length : Int) else none := by
+    rcases hd with rfl | rfl <;> rfl
+  by_cases hc : cur.length = 0
+  · have h1 : setFn d v none (some cur.length) = .error .value := by
+      rw [hc]; rcases hd with rfl | rfl <;> simp [setFn, setFloat_none0]
+    have hv : valid d none v = false := by
+      rcases hd with rfl | rfl <;> cases v <;> simp [valid]
+    rw [h1, heff]; simp [hc, hv]
+  · by_cases h : (cur.length : Int) = 16 ∨ (cur.length : Int) = 32 ∨ (cur.length : Int) = 64
+    · have h1 : setFn d v none (some cur.length) = raw d (some (cur.length : Int)) v := by
+        unfold raw
+        rcases hd with rfl | rfl <;> rcases h with h | h | h <;>
+          simp [getDtype, defOf, Allowed.contains, callSet, bitLen, setFn, setFloat_cur _ _ _ hc, h]
+      rw [h1, raw_eq _ _ _ hw, heff, spec3_noKw _ _ _ (hk _)]
+      simp [hc]
+    · have h1 : setFn d v none (some cur.length) = .error .value := by
+        rcases hd with rfl | rfl <;>
+          simp [setFn, setFloat_cur _ _ _ hc] <;> (unfold setFloat lenOrCur; simp [h])
+      have hv : valid d (some (cur.length : Int)) v = false := by
+        have g1 : (cur.length : Int) ≠ 16 := fun e => h (Or.inl e)
+        have g2 : (cur.length : Int) ≠ 32 := fun e => h (Or.inr (Or.inl e))
+        have g3 : (cur.length : Int) ≠ 64 := fun e => h (Or.inr (Or.inr e))
+        rcases hd with rfl | rfl <;> cases v <;> simp [valid, g1, g2, g3]
+      rw [h1, heff]; simp [hc, hv]
+
+theorem propSet_other (d : DT) (hi : isInt d = false) (hf : d ≠ .float ∧ d ≠ .floatle) (cur : Bits) (v : Val)
+    (hw : wellTyped d v = true) :
+    propSet d cur v =
+      if valid d (effLen d cur) v = true then .ok (encode d (effLen d cur) v) else .error .value := by
+  unfold propSet
+  have heff : effLen d cur = none := by
+    cases d <;> simp [isInt] at hi <;> simp at hf <;> rfl
+  have h1 : setFn d v none (some cur.length) = raw d none v := by
+    unfold raw
+    rw [getDtype_none_ok]
+    cases d <;> simp [isInt] at hi <;> simp at hf <;>
+      simp [defOf, Allowed.onlyOne, callSet, bitLen, setFn, setBfloat]
+  rw [h1, raw_eq _ _ _ hw, heff, spec3_noKw _ _ _ (kwLU_none d v)]
 
 theorem propSet_eq_partial_aux (d : DT) (cur : Bits) (v : Val) (hw : wellTyped d v = true)
     (hreg : propEndianNotWhole d cur = false) :
     propSet d cur v =
       if valid d (effLen d cur) v = true then .ok (encode d (effLen d cur) v) else .error .value := by
-  sorry
+  by_cases hi : isInt d = true
+  · exact propSet_int d hi cur v hw hreg
+  · by_cases hf : d = .float ∨ d = .floatle
+    · exact propSet_float d hf cur v hw
+    · exact propSet_other d (by simpa using hi) (by simpa [not_or] using hf) cur v hw
+
+/-! ### assignment outcomes -/
 
 theorem accepted_assignment_aux (d : DT) (n : Int) (cur : Bits) (v : Val) (hw : wellTyped d v = true)
     (h : (assign d (some n) cur v).err = none) :
     valid d (some n) v = true ∧ (assign d (some n) cur v).bits = encode d (some n) v := by
-  sorry
+  unfold assign at h ⊢
+  simp only at h ⊢
+  rw [propnSet_eq_aux d n v hw] at h ⊢
+  by_cases hv : valid d (some n) v = true
+  · simp [hv]
+  · simp [hv] at h
+
+theorem arr_index_iff (count key : Int) (hc : 0 ≤ count) :
+    ¬ ((if key < 0 then key + count else key) < 0 ∨ (if key < 0 then key + count else key) ≥ count) ↔
+      (-count ≤ key ∧ key < count) := by
+  by_cases hk : key < 0 <;> simp [hk] <;> omega
 
 theorem arrSet_err_iff_aux (d : DT) (n : Nat) (data : Bits) (key : Int) (v : Val)
     (hw : wellTyped d v = true) (hd : d ≠ .bytes) :
     (arrSet d n data key v).err ≠ none ↔
       (¬ (-(data.length / n : Int) ≤ key ∧ key < (data.length / n : Int)) ∨ valid d (some n) v = false) := by
-  sorry
+  have hc : (0 : Int) ≤ (data.length / n : Int) := Int.ediv_nonneg (Int.natCast_nonneg _) (Int.natCast_nonneg _)
+  have hidx := arr_index_iff (data.length / n : Int) key hc
+  unfold arrSet
+  simp only
+  by_cases hk : (if key < 0 then key + (data.length / n : Int) else key) < 0 ∨
+      (if key < 0 then key + (data.length / n : Int) else key) ≥ (data.length / n : Int)
+  · rw [if_pos hk]
+    have : ¬ (-(data.length / n : Int) ≤ key ∧ key < (data.length / n : Int)) := fun h => (hidx.2 h) hk
+    simp [this]
+  · rw [if_neg hk]
+    have hin := hidx.1 hk
+    rw [createElement_eq_aux d n v hw hd]
+    by_cases hv : valid d (some (n : Int)) v = true
+    · simp [hv, hin]
+    · simp [hv, hin]
 
 theorem arrSet_ok_frame_aux (d : DT) (n : Nat) (data : Bits) (key : Int) (v : Val)
     (hw : wellTyped d v = true) (hd : d ≠ .bytes) (hn : 0 < n)
@@ -133,6 +514,38 @@ theorem arrSet_ok_frame_aux (d : DT) (n : Nat) (data : Bits) (key : Int) (v : Va
     ∃ k : Nat, (k : Int) = (if key < 0 then key + (data.length / n : Int) else key) ∧ k < data.length / n ∧
       (arrSet d n data key v).bits = data.take (n * k) ++ encode d (some n) v ++ data.drop (n * k + n) ∧
       (arrSet d n data key v).bits.length = data.length := by
-  sorry
+  have hcast : ((data.length : Int) / (n : Int)) = ((data.length / n : Nat) : Int) := by norm_cast
+  unfold arrSet at h ⊢
+  simp only at h ⊢
+  by_cases hk : (if key < 0 then key + (data.length / n : Int) else key) < 0 ∨
+      (if key < 0 then key + (data.length / n : Int) else key) ≥ (data.length / n : Int)
+  · rw [if_pos hk] at h; cases h
+  · rw [if_neg hk] at h ⊢
+    rw [createElement_eq_aux d n v hw hd] at h ⊢
+    by_cases hv : valid d (some (n : Int)) v = true
+    · simp only [hv, if_true] at h ⊢
+      have hlen := encode_length_aux d n v hv
+      rw [mult_one d hd] at hlen
+      have hlen' : (encode d (some (n : Int)) v).length = n := by
+        have : ((encode d (some (n : Int)) v).length : Int) = (n : Int) := by simpa using hlen
+        exact_mod_cast this
+      simp only [not_or, not_lt, ge_iff_le, not_le] at hk
+      obtain ⟨k, hkk⟩ := Int.eq_ofNat_of_zero_le hk.1
+      have hklt : k < data.length / n := by
+        have := hk.2; rw [hkk, hcast] at this; exact_mod_cast this
+      have hstart : ((n : Int) * (if key < 0 then key + (data.length / n : Int) else key)).toNat = n * k := by
+        rw [hkk]; norm_cast
+      have hfit : n * k + n ≤ data.length := by
+        have h1 : k + 1 ≤ data.length / n := hklt
+        have h2 : n * (k + 1) ≤ n * (data.length / n) := Nat.mul_le_mul_left n h1
+        have h3 : n * (data.length / n) ≤ data.length := Nat.mul_div_le data.length n
+        have : n * (k + 1) = n * k + n := by ring
+        omega
+      refine ⟨k, hkk.symm, hklt, ?_, ?_⟩
+      · rw [hstart, hlen']
+      · rw [hstart, hlen']
+        simp only [List.length_append, List.length_take, List.length_drop, hlen']
+        omega
+    · simp [hv] at h
 
 end BM.C15
